@@ -643,7 +643,7 @@ func runSearchCase(cs c39Case) (string, []lib.Problem) {
 
 // ---- hostile archives, in a child process ----------------------------------------------------
 
-const allocBudget = 1536 * mib // cumulative allocation allowed for reading one archive (documented cap: 96 MiB retained)
+const allocBudget = 768 * mib // cumulative allocation allowed for reading one archive = 8x the documented 96 MiB cap (a legitimate 96 MiB archive costs about 250 MiB because io.ReadAll grows its buffer geometrically)
 
 func runHostileCase(cs c39Case) (string, []lib.Problem) {
 	s, ok := scenarioByName(cs.Scenario, cs.Thorough)
@@ -742,7 +742,7 @@ func (v *verdicts) judgeReadArchive(s scenario, rep childReport) string {
 		v.bad("total-cap-exceeded", "ReadArchive returned %d bytes in total (documented cap %d)", rep.TotalBytes, archiveTotalCap)
 	}
 	if rep.TotalAlloc > allocBudget {
-		v.bad("allocation-unbounded", "ReadArchive allocated %d MiB while reading (budget %d MiB = 16x the documented total cap)", rep.TotalAlloc/mib, allocBudget/mib)
+		v.bad("allocation-unbounded", "ReadArchive allocated %d MiB while reading (budget %d MiB = 8x the documented total cap)", rep.TotalAlloc/mib, allocBudget/mib)
 	}
 	if rep.Err != "" {
 		return "readarchive/rejected"
@@ -976,7 +976,7 @@ func init() {
 	lib.Register(&lib.Check{
 		ID:    "C39",
 		Level: "fault_enumeration",
-		Rule: fmt.Sprintf("(1) %d archive scenarios written with archive/tar directly (well-formed; traversal names ../x, a/../../x, /abs, a//b, ./a, .., backslash, %%2e%%2e; empty, '.', '../up' and absolute roots; cross-root traversal; duplicates within and across rows; file/directory conflicts; symlink/hardlink/dir/device/fifo/contiguous entries; entries of 5 MiB, exactly 8 MiB, 8 MiB+1; 13x8 MiB total; a generated 256 MiB [thorough 4 GiB] single-entry bomb; garbage, empty, truncated, non-base64 rows) each read by sourcefs.ReadArchive and opened by the real daisen2.NewReplayServer in a child process, whose crash / runaway stack / >3 GiB runtime memory is the observation; "+
+		Rule: fmt.Sprintf("(1) %d archive scenarios written with archive/tar directly (well-formed; traversal names ../x, a/../../x, /abs, a//b, ./a, .., backslash, %%2e%%2e; empty, '.', '../up' and absolute roots; cross-root traversal; duplicates within and across rows; file/directory conflicts; symlink/hardlink/dir/device/fifo/contiguous entries; entries of 5 MiB, exactly 8 MiB, 8 MiB+1; 13x8 MiB total; a generated 512 MiB [thorough 4 GiB] single-entry bomb; garbage, empty, truncated, non-base64 rows) each read by sourcefs.ReadArchive and opened by the real daisen2.NewReplayServer in a child process, whose crash / runaway stack / >3 GiB runtime memory is the observation; "+
 			"(2) write->read round trip for every non-empty subset of 7 [thorough %d] valid relative names x {text, empty, binary} contents (+1 MiB contents), 3 [thorough 6] writes per case alternating two map insertion orders, bytes must be identical and ReadArchive must return exactly the files; "+
 			"(3) request paths = every sequence of <= 2 [thorough 3] segments over {'', '.', '..', r, a, b, x.go, '..\\\\a', 'a<NUL>', '%%2e%%2e', 5000 x 'L'} with and without a leading '/', plus hand-picked paths, x {code_read, code_ls via the real tool dispatch; /api/code/read, /api/code/ls via the real mux, escaped and undecoded query} x %d in-process scenarios, plus line windows and oversized files; "+
 			"(4) code_search for %d queries x %d path filters x 8 scenarios. Oracle: an independent model (lexical path cleaning; name -> set of recorded contents): every served byte/line/name/annotation must be a recorded regular file's content under its recorded (cleaned) name, nothing is served for absolute or climbing request paths, entries above 8 MiB and archives above 96 MiB are never served, ReadArchive's cumulative allocation stays under %d MiB. Each tuple is a distinct case.",
@@ -1001,6 +1001,14 @@ func init() {
 				c.Add("cpu_ms_"+g, ms)
 			}
 		},
-		Replay: lib.ReplayCases(runC39Case),
+		Replay: func(c *lib.Ctx, raw json.RawMessage) []lib.Problem {
+			defer lib.CleanScratch()
+			defer func() {
+				if c39ProbeDir != "" {
+					_ = os.RemoveAll(c39ProbeDir)
+				}
+			}()
+			return lib.ReplayCases(runC39Case)(c, raw)
+		},
 	})
 }
